@@ -110,12 +110,20 @@ class Translator:
             # after all of it.
             ab = op.get('abort_at')
             entity = op.get('iface') == 'entity'
+            # statements that have no effect on the transaction: a rejected call that the application caught inside
+            # the body (the rejected call itself leaves nothing behind), a get_state that was taken back (unget_state)
+            gone = {c[0] for c in st.get('caught') or []}
+            ug = op.get('unget')
+            gone |= set([ug] if isinstance(ug, int) else (ug or []))
+
+            def live(seq):
+                return [x for i, x in enumerate(seq) if i not in gone]
             if op['k'] == 'read':
                 k = 0          # entities.by_handle outside any transaction: nothing happens
             elif op['k'] == 'state':
                 k = TXK[op['tx']]
                 seen = set()
-                for h, _n, *_slot in (op['items'] if ab is None else op['items'][:ab]):
+                for h, _n, *_slot in live(op['items'] if ab is None else op['items'][:ab]):
                     if entity and h in seen:
                         # StateTransactionBase.write_entity does not refuse a second write of the same handle (unlike
                         # get_state): it replaces the first, version = current + 1, the last content wins - and the
@@ -131,7 +139,7 @@ class Translator:
                 acts.append(f'ACtxMk {self.it.h(dh)} {self.it.h(gen) if gen else 0} false true {pay("cstates", gen, 7)}')
             elif op['k'] == 'ctx':
                 k = 5
-                todo = op['actions'] if ab is None else op['actions'][:ab]
+                todo = live(op['actions'] if ab is None else op['actions'][:ab])
                 if entity:
                     # ContextStateTransaction.write_entity replaces an earlier write of the same state handle in the
                     # same transaction (the classic getters refuse it): the last one counts
@@ -156,7 +164,7 @@ class Translator:
                         acts.append(f'ACtxDel {self.it.h(a[1])}')
             elif op['k'] == 'descr':
                 k = 6
-                for a in (op['actions'] if ab is None else op['actions'][:ab]):
+                for a in live(op['actions'] if ab is None else op['actions'][:ab]):
                     if a[0] == 'add':
                         _, h, parent, tname, _n, _ws, *_slot = a
                         kk = TXK[TX_OF_TYPE[tname]]
